@@ -1,0 +1,70 @@
+//go:build verif
+
+package iavl
+
+import (
+	"bytes"
+	"fmt"
+)
+
+// VerifStructure is a verification hook (build tag verif): it walks the whole tree and reports every
+// violation of the AVL / ordered-map structural invariants. It never mutates the tree (children are
+// fetched with the same accessors lookups use) and must be called while no writer is active.
+func (t *ImmutableTree) VerifStructure() (problems []string, nodes int64, leaves int64) {
+	if t.root == nil {
+		return nil, 0, 0
+	}
+	var walk func(n *Node, lo, hi []byte, depth int) (minKey []byte)
+	walk = func(n *Node, lo, hi []byte, depth int) []byte {
+		nodes++
+		if depth > 70 {
+			problems = append(problems, "depth > 70: cycle or broken heights")
+			return n.key
+		}
+		if lo != nil && bytes.Compare(n.key, lo) < 0 {
+			problems = append(problems, fmt.Sprintf("key %X below subtree lower bound %X", n.key, lo))
+		}
+		if hi != nil && bytes.Compare(n.key, hi) >= 0 {
+			problems = append(problems, fmt.Sprintf("key %X not below subtree upper bound %X", n.key, hi))
+		}
+		if n.isLeaf() {
+			leaves++
+			if n.size != 1 {
+				problems = append(problems, fmt.Sprintf("leaf %X has size %d", n.key, n.size))
+			}
+			if n.value == nil {
+				problems = append(problems, fmt.Sprintf("leaf %X has nil value", n.key))
+			}
+			return n.key
+		}
+		l, r := n.getLeftNode(t), n.getRightNode(t)
+		if l == nil || r == nil {
+			problems = append(problems, fmt.Sprintf("inner node %X lacks a child", n.key))
+			return n.key
+		}
+		if n.size != l.size+r.size {
+			problems = append(problems, fmt.Sprintf("inner %X size %d != %d + %d", n.key, n.size, l.size, r.size))
+		}
+		mh := l.height
+		if r.height > mh {
+			mh = r.height
+		}
+		if n.height != mh+1 {
+			problems = append(problems, fmt.Sprintf("inner %X height %d != max(%d,%d)+1", n.key, n.height, l.height, r.height))
+		}
+		if d := int(l.height) - int(r.height); d > 1 || d < -1 {
+			problems = append(problems, fmt.Sprintf("inner %X unbalanced: left height %d, right height %d", n.key, l.height, r.height))
+		}
+		lmin := walk(l, lo, n.key, depth+1)
+		rmin := walk(r, n.key, hi, depth+1)
+		if !bytes.Equal(rmin, n.key) {
+			problems = append(problems, fmt.Sprintf("inner key %X != least key of right subtree %X", n.key, rmin))
+		}
+		return lmin
+	}
+	walk(t.root, nil, nil, 0)
+	return problems, nodes, leaves
+}
+
+// VerifRootHeight returns the height recorded in the root (0 for an empty or single-leaf tree).
+func (t *ImmutableTree) VerifRootHeight() int { return int(t.Height()) }
